@@ -903,8 +903,23 @@ def replay(ctx: Ctx, obj) -> int:
         for k in ("object", "reported", "expected", "planted_error_lines", "docstring_span", "message", "k", "differs"):
             if k in inp:
                 print("%-10s: %s" % (k, inp[k]))
-        print("oracle    :", obj.get("what", "see above"))
-        return 1 if obj.get("kind") == "oracle-failure" else 0
+        print("recorded  :", obj.get("what", "see above"))
+        # does the recorded observation still occur on the current tree?
+        still = None
+        lines = [l for l, _ in stdout_reports(res["stdout"])]
+        if isinstance(inp.get("reported"), int):
+            still = str(inp["reported"]) in lines and ("expected" not in inp or inp["reported"] != inp["expected"])
+        elif isinstance(inp.get("reported"), str) and inp["reported"].startswith("m.py:"):
+            still = inp["reported"][5:] in lines
+        elif "message" in inp:
+            still = inp["message"].split("\n")[0] in res["stdout"]
+        elif "k" in inp:
+            k = inp["k"]
+            r2 = run_driver("\n" * k + inp["source"], fmt, False, [])
+            still = sorted((str(int(l) + k), x) for l, x in stdout_reports(res["stdout"])) != stdout_reports(r2["stdout"]) if all(l.isdigit() for l in lines) else True
+        print("now       :", {True: "the recorded observation is reproduced: property violated", False: "not reproduced on this tree",
+                              None: "exit status %s (compare with the recorded expectation above)" % res["rc"]}[still])
+        return 1 if still or (still is None and obj.get("kind") == "oracle-failure") else 0
     if "string_lineno" in inp:
         req = "lineno literal %d %s" % (inp["string_lineno"], enc(inp["value"]))
         from pydoctor import astutils
